@@ -226,6 +226,7 @@ impl Type {
                 iter.map(Self::mut_element_type)
                     .try_fold(first, |acc, curr| Some(acc | curr?))
             }
+            Type::Never => Some(Type::Never),
             _ => None,
         }
     }
@@ -324,6 +325,7 @@ impl Type {
                 iter.map(|t| t.tuple_element_at(index))
                     .try_fold(first, |acc, curr| Some(acc | curr?))
             }
+            Self::Never => Some(Self::Never),
             _ => None,
         }
     }
@@ -343,6 +345,7 @@ impl Type {
                 iter.map(|t| t.field_type(ident))
                     .try_fold(first, |acc, curr| Some(acc | curr?))
             }
+            Self::Never => Some(Self::Never),
             _ => None,
         }
     }
